@@ -230,7 +230,8 @@ func evalFn(cs *FCase) fres {
 		}
 	}
 	if stale {
-		return fres{benign: "sparse-receiver-keeps-old-entries-where-result-is-zero"}
+		// a conforming call returns the model value whatever the receiver held before
+		return fres{what: "stale-receiver-entries", msg: fmt.Sprintf("conforming call on a receiver of matching shape keeps old entries where the result is zero: returned %v (receiver afterwards %v), model %v", got, after, want)}
 	}
 	return fres{}
 }
